@@ -41,6 +41,33 @@ pub fn check(exact: &Oh, bounded: &Oh, t: NaiveDateTime, bound: Duration) -> Res
     }
     let horizon = (t + bound + Duration::days(2)).min(stream::date_end());
     let exact_next = guarded(|| stream::next_change_pointwise(exact, t, horizon)).map_err(|p| format!("schedule_at panicked: {p}"))?;
+    judge(bounded, t, bound, exact_next, horizon)
+}
+
+/// Bounds of decades and more: the exact answer is taken from the unbounded context's own
+/// next_change (decided by C03) instead of a scan of every day up to t + bound.
+pub fn check_long_bound(exact: &Oh, bounded: &Oh, t: NaiveDateTime, bound: Duration) -> Result<Observed, String> {
+    let (se, sb) = guarded(|| (exact.state(t), bounded.state(t))).map_err(|p| format!("state({t}) panicked: {p}"))?;
+    if se != sb {
+        return Err(format!("state({t}) = {sb} with the bound, {se} without"));
+    }
+    let exact_next = match stream::with_day_budget(4_000_000, || exact.next_change(t))? {
+        Some(x) => x,
+        None => return Err(format!("next_change({t}) without a bound made more than 4 million day steps")),
+    };
+    judge(bounded, t, bound, exact_next, stream::date_end())
+}
+
+/// Pointwise oracle up to bounds of 4000 days, the unbounded next_change beyond.
+pub fn check_auto(exact: &Oh, bounded: &Oh, t: NaiveDateTime, bound: Duration) -> Result<Observed, String> {
+    if bound.num_days() > 4000 {
+        check_long_bound(exact, bounded, t, bound)
+    } else {
+        check(exact, bounded, t, bound)
+    }
+}
+
+fn judge(bounded: &Oh, t: NaiveDateTime, bound: Duration, exact_next: Option<NaiveDateTime>, horizon: NaiveDateTime) -> Result<Observed, String> {
     let got = guarded(|| bounded.next_change(t)).map_err(|p| format!("next_change({t}) with the bound panicked: {p}"))?;
     let mut o = Observed { exact_required: false, none_required: false, answered_exact: false };
     match exact_next {
@@ -100,7 +127,7 @@ fn gen_bound(r: &mut Rng, thorough: bool) -> Duration {
 fn placed_instants(exact: &Oh, r: &mut Rng, ast: &OpeningHoursExpression, bound: Duration) -> Vec<NaiveDateTime> {
     let t0 = super::c03::gen_instant(r, ast);
     let mut out = vec![t0];
-    let span = bound + bound + Duration::days(40);
+    let span = (bound + bound + Duration::days(40)).min(Duration::days(80 * 366));
     let Ok(s) = stream::collect(exact, t0, (t0 + span).min(stream::date_end()), 60) else { return out };
     for iv in s.intervals.iter().skip(1) {
         let p = iv.end;
@@ -128,7 +155,7 @@ fn placed_instants(exact: &Oh, r: &mut Rng, ast: &OpeningHoursExpression, bound:
 fn report_failure(args: &Args, rep: &mut Report, ast: &OpeningHoursExpression, hol: &HolSpec, t: NaiveDateTime, bound: Duration, msg: &str) {
     let fails = |c: &OpeningHoursExpression| -> Option<String> {
         let (e, b) = build_pair(&render::plain(c), hol, bound)?;
-        check(&e, &b, t, bound).err()
+        check_auto(&e, &b, t, bound).err()
     };
     let classified = known::classify(&args.known, ast, &|c| denotable(c), &mut |c| fails(c).is_some(), 300);
     let (small, known) = match classified {
@@ -155,6 +182,46 @@ fn bound_sweep(args: &Args, rep: &mut Report) {
     }
     for m in (1441..=20_000).step_by(37) {
         bounds.push(Duration::minutes(m));
+    }
+    // long bounds (decades to the whole supported range), judged against the unbounded next_change
+    let long_exprs = ["2020 Mo 10:00-12:00", "2020,2075 Mo 10:00-12:00", "Mo-Fr 10:00-18:00", "2030 Mar 12-2031 Feb 02", "1950-2400/50 Jan 01", "week 53 Su", "Feb 29", "9000-9999 easter", "2020 Jan; 2300 Dec off", "Sa[5] 22:00-26:00 unknown"];
+    let mut long_bounds: Vec<i64> = vec![1500, 2000, 3000, 3652, 3653, 5000, 7305, 7500, 10_000, 10_248, 10_249, 10_250, 12_000, 15_000, 18_263, 20_000, 30_000, 36_525, 50_000, 100_000, 365_250, 1_000_000, 2_958_463, 3_000_000];
+    for d in (1300..40_000).step_by(if args.thorough() { 97 } else { 997 }) {
+        long_bounds.push(d);
+    }
+    let mut lidx = 0u64;
+    for days in long_bounds {
+        let bound = Duration::days(days);
+        for text in long_exprs {
+            lidx += 1;
+            if (lidx - 1) % args.of.max(1) != args.worker {
+                continue;
+            }
+            let Some((exact, bounded)) = build_pair(text, &HolSpec::None, bound) else { continue };
+            let mut r = Rng::new(args.seed, 0x10b0, lidx);
+            for j in 0..6 {
+                let y = match j {
+                    0 => 2021,
+                    1 => 2019,
+                    2 => r.range(1900, 2100) as i32,
+                    3 => r.range(1900, 9999) as i32,
+                    4 => (2075 - days / 366).clamp(1900, 9999) as i32,
+                    _ => (2020 - days / 365).clamp(1900, 9999) as i32,
+                };
+                let t = chrono::NaiveDate::from_yo_opt(y, 1 + r.below(365) as u32).unwrap().and_hms_opt(r.below(24) as u32, r.below(60) as u32, 0).unwrap();
+                rep.evaluations += 1;
+                match check_long_bound(&exact, &bounded, t, bound) {
+                    Ok(_) => rep.count("long_bound_instants_checked"),
+                    Err(msg) => {
+                        rep.violation("interval_size_bound", format!("{text:?} [none]: {msg}"), json!({"expr": text, "holidays": "none", "instant": t.to_string(), "bound_minutes": bound.num_minutes(), "long_bound": true}), None);
+                        if rep.full() {
+                            return;
+                        }
+                        break;
+                    }
+                }
+            }
+        }
     }
     let mut idx = 0u64;
     for (bi, bound) in bounds.iter().enumerate() {
@@ -199,18 +266,29 @@ pub fn run(args: &Args, rep: &mut Report) {
         cfg.long_intervals = k % 2 == 0;
         let case = gen_case(args, k, &cfg, rep);
         let mut r = case.rng.clone();
-        let bound = gen_bound(&mut r, args.thorough());
+        let mut bound = gen_bound(&mut r, args.thorough());
+        // 0.3% of the cases: a bound of decades to millennia, judged against the unbounded next_change
+        let long = r.below(1000) < 3;
+        if long {
+            bound = Duration::days(*r.pick(&[3_653i64, 9_000, 10_250, 14_000, 18_263, 30_000, 50_000, 150_000, 1_000_000, 2_958_463])) + Duration::minutes(*r.pick(&[0i64, 0, 1, -1, 720]));
+        }
         let Some((exact, bounded)) = build_pair(&case.text, &case.hol, bound) else {
             rep.count("skipped_parser_rejects");
             continue;
         };
         coverage_of(&case.ast, rep);
         rep.count(&format!("bound_days.{}", bound.num_days()));
-        let instants = placed_instants(&exact, &mut r, &case.ast, bound);
+        let mut instants = placed_instants(&exact, &mut r, &case.ast, bound);
+        if long {
+            instants.truncate(4);
+        }
         for (j, t) in instants.iter().enumerate() {
             rep.evaluations += 1;
             rep.begin(&format!("{} | {} | {t} | {}", case.text, case.hol.to_string(), fmt(bound)));
-            match check(&exact, &bounded, *t, bound) {
+            if long {
+                rep.count("long_bound_generated_instants");
+            }
+            match check_auto(&exact, &bounded, *t, bound) {
                 Ok(o) => {
                     rep.count("instants_checked");
                     if o.exact_required {
@@ -257,7 +335,8 @@ pub fn replay(args: &Args, case: &Value, rep: &mut Report) {
         rep.violation("witness_rejected", format!("{text:?} does not parse"), case.clone(), None);
         return;
     };
-    if let Err(msg) = check(&e, &b, t, bound) {
+    let verdict = check_auto(&e, &b, t, bound);
+    if let Err(msg) = verdict {
         let known = lib_parse(&text).ok().and_then(|a| known::explained_by(&args.known, &a));
         rep.violation("interval_size_bound", format!("{text:?} [{}]: {msg}", hol.to_string()), case.clone(), known);
     }
